@@ -1,6 +1,7 @@
 package c15
 
 import (
+	"runtime"
 	"math/bits"
 	"os"
 	"encoding/binary"
@@ -520,8 +521,8 @@ func genState(t *rapid.T, fn *wasiabi.Func, c *Case) []StateOp {
 		op := StateOp{Op: "open", Dir: fdTmp}
 		switch kind {
 		case "file":
-			op.Path = pick(t, "st-file", []string{"f0", "f1", "d0/g", "n0", "big/e03"})
-			op.Oflags = pick(t, "st-oflags", []uint32{0, 1, 8, 1 | 8})
+			op.Path = pick(t, "st-file", []string{"f0", "f1", "d0/g", "big/e03", "f0", "f1", "d0/g", "n0"})
+			op.Oflags = pick(t, "st-oflags", []uint32{0, 0, 0, 0, 1, 1, 8, 1 | 8})
 			op.Rights = pick(t, "st-rights", []uint64{66, 2, 64, 0})
 			op.Fdflags = pick(t, "st-fdflags", []uint32{0, 1, 4})
 		case "rofile":
@@ -669,7 +670,12 @@ func TestWasiArgs(t *testing.T) {
 	knownClasses(t) // decide (and report) the known classes before generating
 	for i := range wasiabi.Table {
 		fn := &wasiabi.Table[i]
-		evid.Check(t, fn.Name, evid.Scale(1000, 20000), func(rt *rapid.T) { runOne(rt, fn) })
+		evid.Check(t, fn.Name, evid.Scale(2000, 20000), func(rt *rapid.T) { runOne(rt, fn) })
+		if debugLabels {
+			var ms runtime.MemStats
+			runtime.ReadMemStats(&ms)
+			fmt.Printf("DBG %s goroutines=%d heapalloc=%dMiB heapsys=%dMiB objects=%d numgc=%d\n", fn.Name, runtime.NumGoroutine(), ms.HeapAlloc>>20, ms.HeapSys>>20, ms.HeapObjects, ms.NumGC)
+		}
 		if ntCount[fn.Name] == 0 && evid.ViolationCount() == 0 {
 			evid.Incomplete("generator health: no non-trivial case for %s in this shard", fn.Name)
 		}
